@@ -89,3 +89,11 @@ claim("C16",
       "through TimeZone::new -> validate, magic and version bytes. That each conforming file decodes to exactly what was written is not decided.",
       "Trusted: analysis/abs*.py, specs/justifications.txt (about 20 tz_info sites), analysis/sym.py.",
       "DESIGN.md 5/C16")
+claim("C17",
+      "sibling/guard rules over path conditions, match-table extraction, call-graph NOREACH, interval abstract interpretation of round.rs",
+      "NARROW claim. Decides the failure clause and the safety of C17: the three helpers report DurationExceedsLimit exactly for a span that is not expressible in "
+      "nanoseconds or is <= 0 and TimestampExceedsLimit for a timestamp outside the i64-nanosecond window, take the remainder only after span > 0, round the non-panicking "
+      "wall-clock reading for zone-aware values, use 10^(9 - min(9, d)) for sub-second digits, and contain no arithmetic that can trap. Which multiple is returned, tie "
+      "breaking and idempotence are numerical behaviour and are not decided by static analysis.",
+      "Trusted: analysis/sym.py, analysis/abs*.py, specs/justifications.txt (the `original +- delta` operator calls are justified by a range argument).",
+      "DESIGN.md 5/C17")
